@@ -66,6 +66,11 @@ def expiry_grid():
                            {'m': 'get', 'now': 1000 + gap + 10 ** 9, 'k': 'forever'}, {'m': 'len', 'now': 1000 + gap + 10 ** 9}]
                     hists.append({'cfg': {'mfs': 8, 'policy': 'lrs', 'cull': cull, 'stats': 0, 'proto': 5, 'disk': 'pickle',
                                           'limN': 2 ** 30, 'limD': 1, 'tagidx': 0}, 'ops': ops, 'state_every': 1})
+                    if call['m'] in ('expire', 'cull') and cull == 0:
+                        # the explicit removals under policy 'none' too (Deque / Index caches): expired items go, the count is returned
+                        hists.append({'cfg': {'mfs': 8, 'policy': 'none', 'cull': cull, 'stats': 0, 'proto': 5, 'disk': 'pickle',
+                                              'limN': 2 ** 30, 'limD': 1, 'tagidx': 0},
+                                      'ops': ops[:3] + [{'m': 'len', 'now': 1000 + gap}, {'m': 'iter', 'now': 1000 + gap}] + ops[3:], 'state_every': 1})
                     if gap == 6 and cull == 0:
                         # the same with a membership test first, at the same instant: whatever it answers at the open
                         # instant now == expiry, the call that follows must agree with it
